@@ -55,7 +55,8 @@ def collect(ctx, nh, steps, tag):
 
 
 def run(ctx):
-    s1 = ctx.proof_obligations()
+    # VERIF_SKIP_S1=1 is for mutation campaigns only (the Coq side does not depend on the redb checkout)
+    s1 = ctx.proof_obligations() if os.environ.get("VERIF_SKIP_S1") != "1" else {"ok": True, "theorems": [], "examples": [], "failed": [], "axioms": {}}
     cov = {"evaluations": 0, "distinct_nontrivial": 0}
     s2_ok, detail, searched = True, None, None
     if getattr(ctx, "replay", None):
